@@ -36,7 +36,9 @@ macro_rules! impl_modulus {
             // Represents 1 in Montgomery form.
             const ONE: $uint_type = $crate::Uint::MAX
                 .rem_vartime(Self::MODULUS.as_nz_ref())
-                .wrapping_add(&$crate::Uint::ONE);
+                .wrapping_add(&$crate::Uint::ONE)
+                // (`1` for the modulus 1, where `R mod 1 = 0`)
+                .rem_vartime(Self::MODULUS.as_nz_ref());
 
             // `R^2 mod MODULUS`, used to convert integers to Montgomery form.
             const R2: $uint_type =
